@@ -229,18 +229,33 @@ def r10c(model, ctx):
               f"{AST_PY}:{fu.lineno}")
 
 
+REF_CONST_WRAP = """
+if shape.signed and value >> (shape.width - 1) & 1:
+    value |= -(1 << shape.width)
+else:
+    value &= (1 << shape.width) - 1
+"""
+REF_CONST_WRAP_2 = """
+if shape.signed and value & (1 << (shape.width - 1)):
+    value |= -(1 << shape.width)
+else:
+    value &= (1 << shape.width) - 1
+"""
+
+
 def r10d(model, ctx):
     R = "R-10d"
     f = model.func(f"{AST_PY}::Const.__init__")
-    ifs = [s for s in f.body if isinstance(s, ast.If) and "shape.signed" in unparse(s.test) and "value >>" in unparse(s.test)]
-    ok = len(ifs) == 1
-    if ok:
-        s = ifs[0]
-        ok = unparse(s.test) == "shape.signed and value >> shape.width - 1 & 1" and \
-            unparse(s.body[0]) == "value |= -(1 << shape.width)" and unparse(s.orelse[0]) == "value &= (1 << shape.width) - 1"
-    ctx.check(ok, R, "Const.__init__:wrap", "bit width-1 set (signed): value |= -(1 << width); else value &= mask(width)",
-              "Const must wrap its value to the unique representative modulo 2**width: sign bit (width-1) set and signed -> "
-              "value |= -(1 << width), otherwise value &= (1 << width) - 1 (one width throughout)", f"{AST_PY}:{f.lineno}")
+    from ..engine import refsem
+    ifs = [s for s in f.body if isinstance(s, ast.If) and any(isinstance(n, ast.Attribute) and n.attr == "signed" for n in ast.walk(s.test))
+           and any(isinstance(x, (ast.Assign, ast.AugAssign)) and "value" in unparse(x.targets[0] if isinstance(x, ast.Assign) else x.target)
+                   for x in ast.walk(s))]
+    need(len(ifs) == 1, "Const.__init__: the wrapping statement (an `if` on shape.signed that rewrites `value`) was not found")
+    refsem.compare_block(ctx, R, "Const.__init__:wrap", f"{AST_PY}:{ifs[0].lineno}", "Const.__init__ (value wrapping)", [ifs[0]],
+                         [REF_CONST_WRAP, REF_CONST_WRAP_2], track=("value",),
+                         fact="bit width-1 set (signed): value |= -1 << width; else value &= mask(width)",
+                         why="Const must wrap its value to the unique representative modulo 2**width: sign bit (width-1) set and "
+                             "signed -> all bits above are set, otherwise they are cleared (one width throughout).")
     t = unparse(f)
     ok = "shape = Shape(bits_for(value), signed=value < 0)" in t and "shape = Shape(shape, signed=value < 0)" in t
     ctx.check(ok, R, "Const.__init__:default-shape", "minimal shape of the value; int shape keeps the sign of the value",
